@@ -198,6 +198,30 @@ CLAIMS = {
         technique="call-wiring and sibling-clone rules over the instantiated AST (alpha-normalised)"),
 }
 
+# structural clauses added in rounds 6-8 (each a necessary condition of the statement; see DESIGN.md §4 "Additions of round 7 / 8")
+ADDENDA = {
+    "C01": "Also: no intermediate of a double instantiation is narrowed to float (PR-1); no function keeps state between calls (RE-1: no non-const static local, no store to a namespace-scope variable).",
+    "C03": "Also: RE-1 (no state kept between calls).",
+    "C04": "Also: the one operation that moves the per-dimension arrays lookup reads (permuteDimensions) moves them together (CL-5).",
+    "C05": "Also: the recursive derivative reference is called for basis functions centre-order..centre only (CL-10); an empty table is refused before any per-dimension array is touched (ES-2, under C18/C20).",
+    "C06": "Also: no entry of the orders array is read before it is written in the reader (FS-10, legacy single ORDER key); the reader's knot-order test is strict, so repeated knots are accepted (VG-2x); operator== is reflexive on NaN coefficients (FS-12).",
+    "C07": "Also: the range short-cuts and termination premises of lookup (SC-1..5) and the gradient's lane budget (KB-3) on every table a read returns.",
+    "C08": "Also: a reported failure of the disk writer leaves no file behind (ED-7: unwinding guard deletes, failed close removes the path); the writer core goes front to back (ED-8: no HDU navigation, each data unit written before the next HDU is created); no C library file operation with a discarded result (ED-6).",
+    "C09": "Also: index products of the fit's n-dimensional arrays are formed in 64 bits (IW-1); a zero-weight entry's value does not enter the right-hand side (GW-7); no absolute threshold on the fit path (GW-8); every index column of every entry is stored after a product (GE-7).",
+    "C10": "Also: IW-1; the free set grows by exactly the row being added (SP-5); the outer iteration cap of each block solver scales with the number of unknowns (SG-7).",
+    "C11": "Also: cholmod_l_rowdel gets NULL or a pattern computed from the factor (SP-4); SP-5; SG-7; the sentinel of Lawson-Hanson's minimum search exceeds the bound of its candidates (SG-8).",
+    "C12": "Also: RE-1 (no state outside the job structures shared between workers).",
+    "C14": "Also: factorial and the product q!(k-1)! are formed in floating point (UW-1/UW-5 widths); after the sort the knot field is only read (UW-7); the caller's kernel is not read after the first release of table storage (UW-8); the numerical kernels never re-bind a parameter (UW-9).",
+    "C15": "Also: the scatter store into the (uninitialised) scratch coefficient array runs for every position (CL-5 every-coefficient-relocated).",
+    "C16": "Also: EXTNAME/HDUNAME (derived from the reader's search by name) and PCOUNT/GCOUNT are reserved (FS-5); keys and values are refused unless printable ASCII (KS-4); the reserved-name test is unconditional (KS-5).",
+    "C17": "Also: every division by a knot span in bspline() is under a positive-span test (GE-6); no absolute threshold on the grid path (GE-5); every index column of every entry is stored after a product (GE-7).",
+    "C18": "Also: a C++ bool is mapped to an error only where false means failure in the callee (CW-3b); lookup / get_evaluator / grideval refuse an empty table (ES-2); the window rule on the read path (TS-2), since the C reader constructs the table from the path.",
+    "C19": "Also: estimateMemory locates every extension by name and type as the reader does (SM-8).",
+    "C20": "Also: ES-2 (operations refuse an empty table); a handler hands back to the allocator only what was obtained (TS-10), the key array is released only where it exists (TS-10b); ndim is assigned before the arrays whose release depends on it (NL-3).",
+}
+for _k, _v in ADDENDA.items():
+    CLAIMS[_k]["text"] = CLAIMS[_k]["text"].rstrip() + " " + _v
+
 NOT_APPLICABLE = {
 }
 
